@@ -14,7 +14,9 @@ EXPLANATION = (
     'Structural rules: (chokepoint) procedure bodies are entered only from apply_procedure or helpers reachable '
     'only from it; (expect-tables) each Value::expect_* is Ok exactly on its variant; exact division is guarded '
     'by a zero test of every divisor (access-path exact); (no-swallow) no Result carrying a SchemeError is '
-    'discarded, defaulted or tested-and-ignored.')
+    'discarded, defaulted or tested-and-ignored. (propagation) a failing internal definition, non-final or final '
+    'form of a procedure body stops the application with that error; every form before it was evaluated, in '
+    'order, nothing after it.')
 NOT_DECIDED = ("that the interpreter 'keeps exactly the effects completed before' the error for arbitrary programs; "
                "the text of messages.")
 
